@@ -1,18 +1,20 @@
 package main
 
 import (
+	"bufio"
+	"bytes"
 	"errors"
 	"fmt"
 	"io"
 	"net"
 	"net/netip"
 	"os"
+	"os/exec"
 	"strconv"
 	"strings"
 	"time"
 
 	ice "github.com/pion/ice/v4"
-	"github.com/pion/logging"
 	"github.com/pion/stun/v3"
 
 	. "verif/gotools/hlib"
@@ -26,7 +28,13 @@ import (
 // After every operation the harness waits until every pion/ice goroutine is parked (runtime.Stack),
 // so the observation of an operation is taken at quiescence; the operations rmget / hcloseget /
 // expireget deliberately do NOT wait between their two halves.
-func main() { Main("tcpmux", runTCPMux) }
+func main() {
+	if os.Getenv("TCPMUX_WORKER") == "1" {
+		workerMain()
+		return
+	}
+	Main("tcpmux", runTCPMux)
+}
 
 type hist struct {
 	ft, wbuf, laddrOK bool
@@ -43,6 +51,8 @@ type hist struct {
 	claimed           map[string]bool
 	unsettled         bool
 	hung              bool
+	logger            *parkLogger
+	parked            map[int]*parkPoint
 }
 
 func atoi(s string) int {
@@ -73,12 +83,11 @@ func newHist(cfg []string) *hist {
 		panic(fmt.Sprintf("bad cfg segment %v", cfg))
 	}
 	h := &hist{ft: cfg[1] == "1", wbuf: cfg[2] == "1", laddrOK: cfg[3] == "1", rt: atoi(cfg[4]),
-		conns: map[int]*fconn{}, ffDone: map[int]bool{}, handles: map[int]net.PacketConn{}, keys: map[string][3]string{}, claimed: map[string]bool{}}
+		conns: map[int]*fconn{}, ffDone: map[int]bool{}, handles: map[int]net.PacketConn{}, keys: map[string][3]string{}, claimed: map[string]bool{}, parked: map[int]*parkPoint{}}
 	h.afterID = iceGoroutines()
 	h.lis = newFakeListener(h.laddrOK)
-	lf := logging.NewDefaultLoggerFactory()
-	lf.DefaultLogLevel = logging.LogLevelDisabled
-	p := ice.TCPMuxParams{Listener: h.lis, Logger: lf.NewLogger("ice"), ReadBufferSize: 0,
+	h.logger = newParkLogger()
+	p := ice.TCPMuxParams{Listener: h.lis, Logger: h.logger, ReadBufferSize: 0,
 		FirstStunBindTimeout: time.Hour, AliveDurationForConnFromStun: time.Hour}
 	if !h.ft {
 		p.FirstStunBindTimeout = -1
@@ -306,10 +315,51 @@ func (h *hist) exec(c *Ctx, t []string) (obs []string) {
 		fc.cliWrite(frame(atoi(t[2]), []byte(Unhex(t[6]))))
 		h.wait()
 		return []string{h.view(cid)}
+	case "ffpark": // ffpark cid len binding hasuser xUSER xBYTES : as ff, but handleConn is parked at AddConn's
+		// first log line (before t.mu.Lock) until "release cid"
+		cid := atoi(t[1])
+		fc, ok := h.conns[cid]
+		if !ok || h.ffDone[cid] {
+			return []string{"skip"}
+		}
+		h.ffDone[cid] = true
+		pp := h.logger.arm(fc.remote.String())
+		fc.cliWrite(frame(atoi(t[2]), []byte(Unhex(t[6]))))
+		deadline := time.Now().Add(10 * time.Second)
+		for {
+			select {
+			case <-pp.entered:
+				h.parked[cid] = pp
+				h.wait()
+				return []string{"parked", h.view(cid)}
+			case <-time.After(200 * time.Microsecond):
+			}
+			if cs := takeCensus(h.afterID); (cs.busy == 0 && cs.tm == 0) || time.Now().After(deadline) {
+				select {
+				case <-pp.entered:
+					continue
+				default:
+				}
+				// handleConn finished without reaching AddConn (or AddConn no longer logs that line)
+				h.logger.disarm(fc.remote.String())
+				h.wait()
+				return []string{"nopark", h.view(cid)}
+			}
+		}
+	case "release": // release cid
+		cid := atoi(t[1])
+		pp, ok := h.parked[cid]
+		if !ok {
+			return []string{"skip"}
+		}
+		delete(h.parked, cid)
+		close(pp.release)
+		h.wait()
+		return []string{h.view(cid)}
 	case "dl": // dl cid nbytes : an incomplete frame, then the read deadline (if armed) passes
 		cid := atoi(t[1])
 		fc, ok := h.conns[cid]
-		if !ok {
+		if !ok || h.parked[cid] != nil {
 			return []string{"skip"}
 		}
 		if !h.ft {
@@ -335,7 +385,7 @@ func (h *hist) exec(c *Ctx, t []string) (obs []string) {
 	case "send", "sendbig": // send cid xB | sendbig cid n
 		cid := atoi(t[1])
 		fc, ok := h.conns[cid]
-		if !ok || !h.ffDone[cid] || fc.clientClosed() {
+		if !ok || !h.ffDone[cid] || fc.clientClosed() || h.parked[cid] != nil {
 			return []string{"skip"}
 		}
 		var payload []byte
@@ -353,7 +403,7 @@ func (h *hist) exec(c *Ctx, t []string) (obs []string) {
 	case "cclose":
 		cid := atoi(t[1])
 		fc, ok := h.conns[cid]
-		if !ok || fc.clientClosed() {
+		if !ok || fc.clientClosed() || h.parked[cid] != nil {
 			return []string{"skip"}
 		}
 		already := fc.serverClosed()
@@ -367,7 +417,7 @@ func (h *hist) exec(c *Ctx, t []string) (obs []string) {
 	case "crecv":
 		cid := atoi(t[1])
 		fc, ok := h.conns[cid]
-		if !ok || fc.clientClosed() {
+		if !ok || fc.clientClosed() || h.parked[cid] != nil {
 			return []string{"skip"}
 		}
 		f, st := fc.cliReadFrame()
@@ -492,6 +542,10 @@ func (h *hist) exec(c *Ctx, t []string) (obs []string) {
 
 // cleanup tears the history's mux down whatever state the operations left it in.
 func (h *hist) cleanup() string {
+	for cid, pp := range h.parked {
+		close(pp.release)
+		delete(h.parked, cid)
+	}
 	for _, fc := range h.conns {
 		fc.cliClose()
 		fc.fireDeadline()
@@ -600,16 +654,18 @@ func probeByID() string {
 
 var wdrop, byid string
 
-// runHistory executes one case line.
-func runHistory(c *Ctx, tag string, toks []string, nontrivial bool) {
+// probes are facts about the implementation, found out once per process
+func probes() (string, string) {
 	if wdrop == "" {
 		wdrop = probeWdrop()
-		c.Count("impl:buffered-write-drops-frames-over-receiveMTU=" + wdrop)
 	}
 	if byid == "" {
 		byid = probeByID()
-		c.Count("impl:packet-conn-removal-by-identity=" + byid)
 	}
+	return wdrop, byid
+}
+
+func withProbes(toks []string, wd, bi string) []string {
 	if len(toks) >= 6 && toks[0] == "cfg" {
 		// the two probe tokens are facts about the implementation, not inputs: (re)write them, also
 		// in cases recorded before they existed
@@ -617,8 +673,15 @@ func runHistory(c *Ctx, tag string, toks []string, nontrivial bool) {
 		for end < len(toks) && toks[end] != ";" {
 			end++
 		}
-		toks = append(toks[:5:5], append([]string{wdrop, byid}, toks[end:]...)...)
+		toks = append(toks[:5:5], append([]string{wd, bi}, toks[end:]...)...)
 	}
+	return toks
+}
+
+// runHistory executes one case line on the implementation (in the worker process).
+func runHistory(toks []string) ([]string, []string) {
+	wd, bi := probes()
+	toks = withProbes(toks, wd, bi)
 	segs := splitOps(toks)
 	h := newHist(segs[0])
 	h.wait()
@@ -632,7 +695,7 @@ func runHistory(c *Ctx, tag string, toks []string, nontrivial bool) {
 			continue
 		}
 		// a first frame with a ufrag registers a key that the cleanup must expire
-		if op[0] == "ff" && len(op) >= 6 {
+		if (op[0] == "ff" || op[0] == "ffpark") && len(op) >= 6 {
 			u := Unhex(op[5])
 			if j := strings.IndexByte(u, ':'); j >= 0 {
 				u = u[:j]
@@ -646,29 +709,22 @@ func runHistory(c *Ctx, tag string, toks []string, nontrivial bool) {
 			}
 		}
 		t0 := time.Now()
-		obs = append(obs, h.exec(c, op)...)
+		obs = append(obs, h.exec(nil, op)...)
 		if os.Getenv("TCPMUX_PROF") != "" {
 			prof[op[0]] += time.Since(t0)
 			profN[op[0]]++
 		}
 	}
-	t1 := time.Now()
 	res := h.cleanup()
-	prof["cleanup"] += time.Since(t1)
-	profN["cleanup"]++
 	if h.unsettled {
 		res += ",unsettled"
 	}
-	obs = append(obs, ";", res)
-	if res != "clean" {
-		stuck++
+	if h.hung {
+		res += ",hung"
 	}
-	c.Emit(tag, toks, obs, nontrivial)
+	obs = append(obs, ";", res)
+	return toks, obs
 }
-
-// histories whose mux could not be torn down or that hung; a run stops generating after a few of
-// them (each costs tens of seconds, and the verdict is already decided)
-var stuck int
 
 // ---------------------------------------------------------------------------------------------
 
@@ -711,18 +767,171 @@ func describe(raw []byte) (bool, bool, string) {
 var prof = map[string]time.Duration{}
 var profN = map[string]int{}
 
+// ---------------------------------------------------------------------------------------------
+// The histories run in a WORKER process (this binary with TCPMUX_WORKER=1): a panic inside one of
+// the mux's own goroutines cannot be recovered in-process and would take the harness down; the
+// supervisor turns the death of the worker into the observation PANIC of the history it was running
+// and starts a fresh worker for the next one.
+
+func workerMain() {
+	in := bufio.NewReaderSize(os.Stdin, 1<<20)
+	out := bufio.NewWriterSize(os.Stdout, 1<<20)
+	wd, bi := probes()
+	fmt.Fprintf(out, "PROBE %s %s\n", wd, bi)
+	out.Flush()
+	for {
+		line, err := in.ReadString('\n')
+		if line = strings.TrimSpace(line); line != "" {
+			toks, obs := runHistory(strings.Fields(line))
+			fmt.Fprintf(out, "%s => %s\n", strings.Join(toks, " "), strings.Join(obs, " "))
+			out.Flush()
+		}
+		if err != nil {
+			return
+		}
+	}
+}
+
+type worker struct {
+	cmd    *exec.Cmd
+	stdin  io.WriteCloser
+	stdout *bufio.Reader
+	stderr *bytes.Buffer
+	wd, bi string
+}
+
+func startWorker() (*worker, error) {
+	exe, err := os.Executable()
+	if err != nil {
+		return nil, err
+	}
+	w := &worker{cmd: exec.Command(exe), stderr: &bytes.Buffer{}}
+	w.cmd.Env = append(os.Environ(), "TCPMUX_WORKER=1")
+	w.cmd.Stderr = w.stderr
+	if w.stdin, err = w.cmd.StdinPipe(); err != nil {
+		return nil, err
+	}
+	so, err := w.cmd.StdoutPipe()
+	if err != nil {
+		return nil, err
+	}
+	w.stdout = bufio.NewReaderSize(so, 1<<20)
+	if err = w.cmd.Start(); err != nil {
+		return nil, err
+	}
+	line, err := w.readLine(120 * time.Second)
+	f := strings.Fields(line)
+	if err != nil || len(f) != 3 || f[0] != "PROBE" {
+		w.kill()
+		return nil, fmt.Errorf("worker did not start: %v %q %s", err, line, w.stderr.String())
+	}
+	w.wd, w.bi = f[1], f[2]
+	return w, nil
+}
+
+func (w *worker) readLine(bound time.Duration) (string, error) {
+	type res struct {
+		s   string
+		err error
+	}
+	ch := make(chan res, 1)
+	go func() {
+		s, err := w.stdout.ReadString('\n')
+		ch <- res{s, err}
+	}()
+	select {
+	case r := <-ch:
+		return strings.TrimSpace(r.s), r.err
+	case <-time.After(bound):
+		return "", fmt.Errorf("timeout")
+	}
+}
+
+func (w *worker) kill() {
+	_ = w.stdin.Close()
+	_ = w.cmd.Process.Kill()
+	_ = w.cmd.Wait()
+}
+
+// crashLine is the first line of what a dying worker wrote to stderr (panic: ... / fatal error: ...).
+func (w *worker) crashLine() string {
+	for _, l := range strings.Split(w.stderr.String(), "\n") {
+		if strings.HasPrefix(l, "panic:") || strings.HasPrefix(l, "fatal error:") {
+			return l
+		}
+	}
+	if l := strings.SplitN(w.stderr.String(), "\n", 2)[0]; l != "" {
+		return l
+	}
+	return "worker died"
+}
+
+type supervisor struct {
+	c      *Ctx
+	w      *worker
+	wd, bi string
+	stuck  int
+}
+
+// run executes one history in the worker and emits its observation.
+func (sv *supervisor) run(tag string, toks []string, nontrivial bool) error {
+	if sv.w == nil {
+		w, err := startWorker()
+		if err != nil {
+			return err
+		}
+		sv.w = w
+		if sv.wd == "" {
+			sv.wd, sv.bi = w.wd, w.bi
+			sv.c.Count("impl:buffered-write-drops-frames-over-receiveMTU=" + sv.wd)
+			sv.c.Count("impl:packet-conn-removal-by-identity=" + sv.bi)
+		}
+	}
+	toks = withProbes(toks, sv.wd, sv.bi)
+	_, err := fmt.Fprintln(sv.w.stdin, strings.Join(toks, " "))
+	var line string
+	if err == nil {
+		line, err = sv.w.readLine(600 * time.Second)
+	}
+	if err != nil {
+		// the implementation brought the worker down (or hung it beyond every watchdog)
+		kind := "PANIC"
+		if err.Error() == "timeout" {
+			kind = "HANG"
+		}
+		sv.w.kill()
+		msg := sv.w.crashLine()
+		sv.w = nil
+		sv.stuck++
+		sv.c.Count("worker-lost:" + kind)
+		sv.c.Emit(tag, toks, []string{kind, Hex(msg)}, nontrivial)
+		return nil
+	}
+	i := strings.Index(line, " => ")
+	if i < 0 {
+		return fmt.Errorf("worker answered %q", line)
+	}
+	obs := strings.Fields(line[i+4:])
+	if len(obs) == 0 || obs[len(obs)-1] != "clean" {
+		sv.stuck++
+	}
+	sv.c.Emit(tag, strings.Fields(line[:i]), obs, nontrivial)
+	return nil
+}
+
 func runTCPMux(c *Ctx) error {
+	c.Rule = "one case = one history (8-45 operations) on a fresh TCPMuxDefault over a fake listener; non-trivial = the history attached at least one connection by ufrag AND contains at least one of: a rejected first frame, a removal/expiry/handle close, or MuxClose with a connection still open. Distinct = distinct case lines."
+	sv := &supervisor{c: c}
 	defer func() {
-		if os.Getenv("TCPMUX_PROF") != "" {
-			for k, v := range prof {
-				fmt.Fprintln(os.Stderr, k, profN[k], v)
-			}
+		if sv.w != nil {
+			sv.w.kill()
 		}
 	}()
-	c.Rule = "one case = one history (8-45 operations) on a fresh TCPMuxDefault over a fake listener; non-trivial = the history attached at least one connection by ufrag AND contains at least one of: a rejected first frame, a removal/expiry/handle close, or MuxClose with a connection still open. Distinct = distinct case lines."
 	if c.Replay != "" {
 		for _, t := range c.ReplayLines() {
-			runHistory(c, replayTag(t), t, true)
+			if err := sv.run(replayTag(t), t, true); err != nil {
+				return err
+			}
 		}
 		return nil
 	}
@@ -733,8 +942,12 @@ func runTCPMux(c *Ctx) error {
 	for i := 0; i < n; i++ {
 		g := newGen(c)
 		toks, tag, nt := g.history(i)
-		runHistory(c, tag, toks, nt)
-		if stuck >= 6 {
+		if err := sv.run(tag, toks, nt); err != nil {
+			return err
+		}
+		// histories whose mux could not be torn down, that hung or crashed: stop after a few of them
+		// (each costs tens of seconds, and the verdict is already decided)
+		if sv.stuck >= 6 {
 			c.Count("run-cut-short-after-stuck-histories")
 			break
 		}
